@@ -1,5 +1,7 @@
 """C02 - config-class round trip: parse.class_(emit.class_(ir)) describes the same interface (AST level + via source text)."""
 from harness.rt import *  # noqa: F401,F403
+from harness import gridrun
+from harness.gridrun import grid_ob  # noqa: F401  (obligation bodies call H.grid_ob)
 from harness.rt import mk_ob
 from lib.domain import SHAPES
 from harness import C18  # noqa: F401  (word-wrap obligations reuse C18's width-symbolic body)
@@ -37,4 +39,5 @@ def obligations(tier, seed):
                       body="H.C18.wrap('class', 1, W, {ACTIVE})", witness=(a + 5,),
                       bounds="emit.class_(word_wrap=True) -> parse.class_ vs the unwrapped round trip, C18 pool IR 1, every width %d <= W < %d (symbolic)"
                       % (a, b), timeout=240 if tier == "quick" else 900, path_timeout=120, funcs=FUNCS))
+    obs += gridrun.obligations('C02', tier, FUNCS)
     return obs
